@@ -2165,7 +2165,11 @@ fn main() {
 			let snapshot = edits.clone();
 			edits.retain(|e| {
 				let auto_fmt = e.rule == "L1" && e.parts.len() == 1 && matches!(&e.parts[0], Part::Text(t) if t == "vf_format()");
-				!(auto_fmt && snapshot.iter().any(|o| (o.start, o.end, o.seq) != (e.start, e.end, e.seq) && o.start <= e.start && e.end <= o.end && !(o.parts.len() == 1 && matches!(&o.parts[0], Part::Text(t) if t == "vf_format()"))))
+				let keep1 = !(auto_fmt && snapshot.iter().any(|o| (o.start, o.end, o.seq) != (e.start, e.end, e.seq) && o.start <= e.start && e.end <= o.end && !(o.parts.len() == 1 && matches!(&o.parts[0], Part::Text(t) if t == "vf_format()"))));
+				// likewise the automatic `matches!` lowering (L7) inside an explicit sidecar replacement (seq >= 1_000_000) of the whole macro call
+				let auto_l7 = e.rule == "L7" && e.seq < 1_000_000;
+				let keep2 = !(auto_l7 && snapshot.iter().any(|o| o.seq >= 1_000_000 && o.start <= e.start && e.end <= o.end));
+				keep1 && keep2
 			});
 		}
 		if raw {
